@@ -123,7 +123,9 @@ class FrameParser(Parser):
             and (frame.is_text or frame.is_continuation)
         ):
             self._utf8_validator.reset()
-        if frame.fin:
+        if frame.fin and not frame.is_control:
+            # A control frame may arrive in the middle of a fragmented
+            # text message, which doesn't end the message.
             self._is_text = False
 
 
